@@ -8,6 +8,11 @@ The DHT is a finite map; it is represented by its lookup functions per key famil
 `DestinationByTunnelKey`, `ClientLeaseKey`). The caller is the VERIFIED identity from the certificate
 (`extractAuthenticated`): requests carry no client identity at all, only a hostname and server nodes of
 which only the address is read. Injected KV failures (`Faults`) model failing Put/Delete calls.
+
+The transport hands every handler a `transport.StreamDelegate` with TWO identities: `Certificate` (verified by
+mTLS) and `Identity`, the node the peer merely CLAIMS to be (`Caller` below). The handlers read the certificate
+only (`extractAuthenticated`); the claimed identity is used for logging and nothing else. `Req` / `stepReq`
+are the calls as they arrive (with the claimed identity), `Req.op` is what the handlers make of them.
 Core Lean only.
 -/
 namespace Specter.C26
@@ -15,6 +20,25 @@ namespace Specter.C26
 structure Client where
   token : String
   id : Nat
+deriving DecidableEq, Repr
+
+/-- a node identity in wire form (`protocol.Node`): Id, Address, Rendezvous. -/
+structure Ident where
+  id : Nat
+  address : String
+  rendezvous : Bool
+deriving DecidableEq, Repr
+
+/-- the wire form of the certificate identity (`pki.Identity.NodeIdentity`): the address is the client token and the
+node is a rendezvous (client) node. This is the `ClientDestination` of every route a publish stores. -/
+def Client.node (c : Client) : Ident := ⟨c.id, c.token, true⟩
+
+/-- who is calling, as the transport presents it (`transport.StreamDelegate`): the identity on the verified
+certificate, and the identity the peer claims on the stream (absent, honest, or spoofed in any way — in
+particular with the caller's own Id and somebody else's Address). -/
+structure Caller where
+  verified : Client
+  claimed : Option Ident
 deriving DecidableEq, Repr
 
 structure Dest where
@@ -149,5 +173,37 @@ def step (st : St) : Op → St × Out
   | .hold t b => ({ st with leased := fun t' => if t' = t then b else st.leased t' }, .ok [])
 
 def run (st : St) (ops : List Op) : St := ops.foldl (fun s o => (step s o).1) st
+
+/-! ## requests as they arrive: with the identity the peer claims on the stream -/
+
+inductive Req where
+  | generate (who : Caller) (h : String)
+  | bindCustom (c : Client) (h : String)
+  | publish (f : Faults) (who : Caller) (h : String) (servers : List (Option String))
+  | unpublish (f : Faults) (who : Caller) (h : String)
+  | release (f : Faults) (who : Caller) (h : String)
+  | hold (token : String) (held : Bool)
+
+/-- what the handlers make of a request: `extractAuthenticated` reads `delegation.Certificate` only, the claimed
+`delegation.Identity` never reaches the DHT. -/
+def Req.op : Req → Op
+  | .generate who h => .generate who.verified h
+  | .bindCustom c h => .bindCustom c h
+  | .publish f who h s => .publish f who.verified h s
+  | .unpublish f who h => .unpublish f who.verified h
+  | .release f who h => .release f who.verified h
+  | .hold t b => .hold t b
+
+/-- the same request with another claimed identity on the stream. -/
+def Req.withClaim (cl : Option Ident) : Req → Req
+  | .generate who h => .generate { who with claimed := cl } h
+  | .publish f who h s => .publish f { who with claimed := cl } h s
+  | .unpublish f who h => .unpublish f { who with claimed := cl } h
+  | .release f who h => .release f { who with claimed := cl } h
+  | r => r
+
+def stepReq (st : St) (r : Req) : St × Out := step st r.op
+
+def runReq (st : St) (rs : List Req) : St := rs.foldl (fun s r => (stepReq s r).1) st
 
 end Specter.C26
